@@ -132,7 +132,7 @@ func genExprCase(t *rapid.T) exprCase {
 		c.E2 = genExpr(t, names, true, rapid.IntRange(0, 3).Draw(t, "depth2"))
 	}
 	c.N = rapid.IntRange(1, 6).Draw(t, "n")
-	c.Style = rc.Style{Choices: rapid.SliceOfN(rapid.IntRange(0, 63), 4, 32).Draw(t, "choices"), LeadingZeros: rapid.IntRange(0, 3).Draw(t, "leadingzeros") == 0}
+	c.Style = rc.Style{Choices: rapid.SliceOfN(rapid.IntRange(0, 63), 4, 32).Draw(t, "choices"), LeadingZeros: rapid.IntRange(0, 3).Draw(t, "leadingzeros") == 0, Rename: rapid.Bool().Draw(t, "rename")}
 	return c
 }
 
